@@ -2,7 +2,7 @@
    Only statements closed by [exact]; the lemmas live in Proofs/Stores.v, the executable
    models (memory store, OCI layout store, abstract specification) in Model/Stores.v. *)
 From Oras Require Import Base.Prelude Generated.GC06 Model.Stores Model.StoresConc Model.StoresConcOci Model.StoresConcFile
-     Proofs.Stores Proofs.StoresConc Proofs.StoresConcOci Proofs.StoresConcOci2 Proofs.StoresConcFile.
+     Proofs.Stores Proofs.StoresConc Proofs.StoresConcOci Proofs.StoresConcOci2 Proofs.StoresConcFile Proofs.StoresFile.
 From Coq Require Import Permutation.
 
 (* For every history, the memory store (cas.Memory + resolver.Memory + graph.Memory)
@@ -16,7 +16,9 @@ Print Assumptions C06_refines_memory.
 
 (* The same for the OCI layout store (blob files by digest + resolver with the implicit
    tag-by-digest + graph, Untag, Delete without AutoGC, Tags), for every history over a
-   universe U in which every digest is used with one media type and size. *)
+   universe U in which content is pushed and deleted under the universe's descriptor of
+   its digest ([canon_op]); Fetch, Exists, Tag and Predecessors may use any descriptor of
+   the digest, e.g. the application/octet-stream one Resolve(<digest>) hands out. *)
 Theorem C06_refines_oci : forall U : N -> gkey,
   (forall g, k_dig (U g) = g) ->
   forall h : list op, Forall (canon_op U) h ->
@@ -94,14 +96,15 @@ Theorem C06_resolve_latest_oci : forall h1 d n h2,
 Proof. exact oci_resolve_latest. Qed.
 Print Assumptions C06_resolve_latest_oci.
 
-(* OCI: Delete removes the content and every name that pointed to it *)
+(* OCI: Delete removes the content and every name that pointed to that digest, whatever
+   media type or size it was tagged with (after the audit-F3 repair of Store.delete) *)
 Theorem C06_delete_clears_oci : forall h1 d,
   let s := fst (run oci_step oci_init h1) in
   snd (oci_step s (Delete d)) = OOk ->
   let s' := fst (oci_step s (Delete d)) in
   snd (oci_step s' (Fetch d)) = OErr ENotFound /\
   snd (oci_step s' (Exists d)) = OBool false /\
-  forall n d', get ref_eqb (RName n) (r_index (o_res s)) = Some d' -> gk d' = gk d ->
+  forall n d', get ref_eqb (RName n) (r_index (o_res s)) = Some d' -> d_dig d' = d_dig d ->
                snd (oci_step s' (Resolve (RName n))) = OErr ENotFound.
 Proof. exact oci_delete_clears. Qed.
 Print Assumptions C06_delete_clears_oci.
@@ -125,6 +128,46 @@ Theorem C06_delete_order_free : forall k snap t r,
   get ref_eqb r (untag_fold k snap t) = get ref_eqb r (spec_untag_equal k t).
 Proof. exact untag_fold_order_free. Qed.
 Print Assumptions C06_delete_order_free.
+
+(* ---- "no operation ever returned bytes that do not match its descriptor" ---- *)
+
+(* memory: for every history, what Fetch returns has the digest AND the size of the request *)
+Theorem C06_fetch_matches_memory : forall h d hash len,
+  snd (mem_step (fst (run mem_step mem_init h)) (Fetch d)) = OBytes hash len ->
+  hash = d_dig d /\ len = d_size d.
+Proof. exact mem_fetch_matches. Qed.
+Print Assumptions C06_fetch_matches_memory.
+
+(* OCI: content is found by digest (the size field of the request is not consulted, as in
+   the code): for every history, canonical or not, the returned bytes hash to the requested digest *)
+Theorem C06_fetch_matches_oci : forall h d hash len,
+  snd (oci_step (fst (run oci_step oci_init h)) (Fetch d)) = OBytes hash len -> hash = d_dig d.
+Proof. exact oci_fetch_matches. Qed.
+Print Assumptions C06_fetch_matches_oci.
+
+(* under concurrency: at EVERY configuration reachable by any schedule of atomic steps (not
+   only at quiescence) a Fetch returns matching bytes *)
+Theorem C06_conc_fetch_matches_memory : forall (progs : list (list op)) (sched : list nat) d hash len,
+  snd (mem_step (c_store (mconf_run (mconf_init progs) sched)) (Fetch d)) = OBytes hash len ->
+  hash = d_dig d /\ len = d_size d.
+Proof. exact conc_fetch_matches_memory. Qed.
+Print Assumptions C06_conc_fetch_matches_memory.
+
+Theorem C06_conc_fetch_matches_oci :
+  forall (U : N -> gkey) (B : N -> blob) (progs : list (list op)) (sched : list nat) d hash len,
+  (forall g, k_dig (U g) = g) -> Forall (wf_op U B) (concat progs) ->
+  snd (oci_step (oc_store (oconf_run (oconf_init progs) sched)) (Fetch d)) = OBytes hash len ->
+  hash = d_dig d.
+Proof. exact conc_fetch_matches_oci. Qed.
+Print Assumptions C06_conc_fetch_matches_oci.
+
+Theorem C06_conc_fetch_matches_file :
+  forall (ig ov : bool) (progs : list (list op)) (sched : list nat) d hash len,
+  Forall untitled (concat progs) -> Forall no_alias (concat progs) ->
+  snd (file_step true ig ov (fc_store (fconf_run true ig ov (fconf_init progs) sched)) (Fetch d)) = FO (OBytes hash len) ->
+  hash = d_dig d.
+Proof. exact conc_fetch_matches_file. Qed.
+Print Assumptions C06_conc_fetch_matches_file.
 
 (* ---- concurrency: memory store ---- *)
 
@@ -218,9 +261,12 @@ Proof. exact ox_quiescent. Qed.
    IgnoreNoName, DisableOverwrite) and EVERY schedule run to completion, names,
    digestToPath, files, fallback storage and resolver are literally those of a sequential
    order of the same operations in program order, so every Fetch, Exists and Resolve
-   answers alike.  Partial: the graph (Predecessors) is not compared. *)
+   answers alike.  Partial: the graph (Predecessors) is not compared; programs use neither
+   the aliasing name (two names, two locks, one file) nor titled successors (with those the
+   restore step falls behind the store and executions are not serialisable in general). *)
 Theorem C06_quiescent_serialisable_file_partial :
   forall (fx ig ov : bool) (progs : list (list op)) (sched : list nat),
+  Forall untitled (concat progs) -> Forall no_alias (concat progs) ->
   let cf := fconf_run fx ig ov (fconf_init progs) sched in
   fquiescent cf = true ->
   exists order : list (nat * op),
@@ -250,10 +296,55 @@ Theorem C06_fetch_matches_digest_file_partial : forall ig ov h d hash len,
 Proof. exact file_fetch_matches. Qed.
 Print Assumptions C06_fetch_matches_digest_file_partial.
 
+(* Fetch returns the pushed content for ever: after a successful Push (named, or unnamed
+   without IgnoreNoName, which discards the content), whatever follows -- titled successors
+   and restoreDuplicates included, the aliasing name excluded -- Fetch of that descriptor
+   succeeds and returns bytes that hash to its digest *)
+Theorem C06_fetch_returns_pushed_file_partial : forall ig ov h1 d c h2,
+  Forall no_alias h1 -> no_alias (Push d c) -> Forall no_alias h2 -> (ig = false \/ d_name d <> 0) ->
+  let s := fst (runf (file_step true ig ov) file_init h1) in
+  snd (file_step true ig ov s (Push d c)) = FO OOk ->
+  let s2 := fst (runf (file_step true ig ov) (fst (file_step true ig ov s (Push d c))) h2) in
+  exists len, snd (file_step true ig ov s2 (Fetch d)) = FO (OBytes (d_dig d) len).
+Proof. exact file_fetch_returns_pushed. Qed.
+Print Assumptions C06_fetch_returns_pushed_file_partial.
+
+(* the fallback content map is immutable: an unnamed re-push is already-exists and a no-op *)
+Theorem C06_unnamed_repush_refused_file : forall fx ov d c h2 s c',
+  d_name d = 0 ->
+  snd (file_step fx false ov s (Push d c)) = FO OOk ->
+  let s2 := fst (runf (file_step fx false ov) (fst (file_step fx false ov s (Push d c))) h2) in
+  file_step fx false ov s2 (Push d c') = (s2, FO (OErr EAlreadyExists)).
+Proof. exact file_unnamed_repush_refused. Qed.
+Print Assumptions C06_unnamed_repush_refused_file.
+
+(* content never pushed is absent: fetching or tagging it is not-found -- for every history
+   and option setting, titled successors and the aliasing name included *)
+Theorem C06_absent_notfound_file : forall fx ig ov h g,
+  (forall d c, In (Push d c) h -> d_dig d <> g) ->
+  let s := fst (runf (file_step fx ig ov) file_init h) in
+  forall d r, d_dig d = g ->
+    snd (file_step fx ig ov s (Fetch d)) = FO (OErr ENotFound) /\
+    snd (file_step fx ig ov s (Exists d)) = FO (OBool false) /\
+    (r <> REmpty -> snd (file_step fx ig ov s (Tag d r)) = FO (OErr ENotFound)).
+Proof. exact file_absent_notfound. Qed.
+Print Assumptions C06_absent_notfound_file.
+
+(* Resolve returns the descriptor most recently tagged *)
+Theorem C06_resolve_latest_file : forall fx ig ov s d r h2,
+  r <> REmpty ->
+  snd (file_step fx ig ov s (Tag d r)) = FO OOk -> forallb (fun o => negb (tags_ref r o)) h2 = true ->
+  snd (file_step fx ig ov (fst (runf (file_step fx ig ov) (fst (file_step fx ig ov s (Tag d r))) h2)) (Resolve r))
+  = FO (ODesc d).
+Proof. exact file_resolve_latest. Qed.
+Print Assumptions C06_resolve_latest_file.
+
 (* repaired code: a refused or failed operation leaves the whole state (names,
-   digestToPath, files, fallback, tags, graph) unchanged, after any history *)
+   digestToPath, files, fallback, tags, graph) unchanged -- in histories without the
+   aliasing name and without titled successors ([untitled]: restoreDuplicates has nothing
+   to restore).  With titled successors the statement is refuted below (audit F1). *)
 Theorem C06_failed_noop_file_partial : forall ig ov h o,
-  Forall no_alias h -> no_alias o ->
+  Forall no_alias h -> Forall untitled h -> no_alias o -> untitled o ->
   let s := fst (runf (file_step true ig ov) file_init h) in
   fout_is_err (snd (file_step true ig ov s o)) = true -> fst (file_step true ig ov s o) = s.
 Proof. exact file_failed_noop. Qed.
@@ -289,6 +380,18 @@ Theorem C06_fetch_returns_pushed_file_refuted :
     = [FO OOk; FO (OBytes 1 5)] /\ b_len w_trailing = 6.
 Proof. exact file_trailing_witness. Qed.
 Print Assumptions C06_fetch_returns_pushed_file_refuted.
+
+(* known finding file-restore-failed-after-store: restoreDuplicates runs after the content is
+   stored; when it fails (here: a layer titled with a name outside the working directory)
+   Push returns the error, yet the manifest exists, a re-push is already-exists, and it is
+   never indexed *)
+Theorem C06_failed_noop_file_titled_refuted :
+  snd (runf (file_step true false false) file_init
+            [Push w_layer w_good; Push w_manifest w_manifest_blob; Exists w_manifest;
+             Push w_manifest w_manifest_blob; Preds w_layer])
+    = [FO OOk; FE FTraversal; FO (OBool true); FO (OErr EAlreadyExists); FO (OPreds [])].
+Proof. exact file_restore_fails_witness. Qed.
+Print Assumptions C06_failed_noop_file_titled_refuted.
 
 Theorem C06_fetch_matches_digest_file_alias_refuted :
   snd (runf (file_step true false false) file_init
